@@ -338,6 +338,36 @@ class OracleUnpickler(pickle._Unpickler):
         return arr
 
 
+class RecordingReader:
+    """A non-peekable binary file object over bytes that logs every read as (position before, bytes returned):
+    lets the harness see the ACTUAL reads of `read_array`'s chunk loop."""
+
+    def __init__(self, data):
+        self._b = io.BytesIO(data)
+        self.reads = []
+
+    def read(self, n=-1):
+        pos = self._b.tell()
+        out = self._b.read(n)
+        self.reads.append((pos, len(out)))
+        return out
+
+    def readline(self):
+        return self._b.readline()
+
+    def readinto(self, buf):
+        pos = self._b.tell()
+        n = self._b.readinto(buf)
+        self.reads.append((pos, n))
+        return n
+
+    def seek(self, *a):
+        return self._b.seek(*a)
+
+    def tell(self):
+        return self._b.tell()
+
+
 DECODERS = [
     ("zlib", zlib.decompress), ("gzip", gzip.decompress), ("bz2", bz2.decompress),
     ("lzma", lambda d: lzma.decompress(d, format=lzma.FORMAT_ALONE)), ("xz", lambda d: lzma.decompress(d, format=lzma.FORMAT_XZ)),
@@ -488,6 +518,7 @@ def dump_load_case(case, scratch):
     if len(recs) != len(originals):
         fail("array-count-differs-in-file", case, dict(want=len(originals), got=len(recs)))
         return
+    chunk_jobs = []
     for i, (rec, orig) in enumerate(zip(recs, originals)):
         sub = dict(case, index=i)
         want_order = "F" if (orig.flags.f_contiguous and not orig.flags.c_contiguous) else "C"
@@ -498,12 +529,13 @@ def dump_load_case(case, scratch):
         al = "-" if rec["align"] is None else str(rec["align"])
         corr("layout", sub, f"layout {al} {rec['wrapper_end']} {rec['itemsize']} {rec['count']}",
              f"ok pad={'-' if rec['pad'] is None else rec['pad']} start={rec['start']} end={rec['end']}")
-        # oracle on the layout itself (documented format)
+        # oracle on the layout itself (the property: padding to 16-byte alignment)
         if rec["align"] is not None:
             if rec["start"] % 16 != 0:
                 fail("data-start-not-16-byte-aligned", sub, dict(start=rec["start"], pad=rec["pad"]))
-            if not rec["run_ok"]:
-                fail("padding-bytes-not-0xff", sub, dict(pad=rec["pad"]))
+            # the bytes between the wrapper and the data (pad-length byte, 0xff run) against the model's writer
+            corr("write-prefix", sub, f"write {al} {rec['wrapper_end']} {rec['itemsize']} -",
+                 "ok " + hexs(stream[rec["wrapper_end"]: rec["start"]]))
         if rec["short"]:
             fail("file-shorter-than-array", sub, dict(start=rec["start"], end=rec["end"]))
         want_raw = np.asarray(orig).tobytes(want_order)
@@ -520,7 +552,27 @@ def dump_load_case(case, scratch):
             # the model reads the bytes that are in the file; that they are the array's is judged just above
             corr("read", sub, f"read {al} {rec['wrapper_end']} {rec['count']} {rec['itemsize']} {hexs(chunk)}",
                  f"ok {hexs(rec['raw'] if has_holes(orig.dtype) else want_raw)} pos={rec['end']} left={len(tail)}")
-        corr("chunks", sub, f"chunks {rec['itemsize']} {rec['count']}", chunk_expect(rec["itemsize"], rec["count"]))
+        chunk_jobs.append((sub, rec))
+    # the chunked read: for an uncompressed stream the actual `read` calls inside each array's data range are
+    # observed; otherwise only the arithmetic is compared
+    observed = None
+    if codec == "raw" and chunk_jobs:
+        rr = RecordingReader(data)
+        try:
+            joblib.load(rr)
+            observed = rr.reads
+        except Exception:  # noqa: BLE001  (reported by the load checks below)
+            observed = None
+    for sub, rec in chunk_jobs:
+        want = chunk_expect(rec["itemsize"], rec["count"])
+        if observed is not None and rec["itemsize"]:
+            sizes = [n for (pos, n) in observed if rec["start"] <= pos < rec["end"] and n > 0]
+            isz = rec["itemsize"]
+            m = want.split()[1] if want.startswith("ok") else "m=?"
+            want = (f"ok {m} n={len(sizes)} sum={sum(sizes) // isz} first={(sizes[0] // isz) if sizes else 0} "
+                    f"last={(sizes[-1] // isz) if sizes else 0} maxbytes={max(sizes) if sizes else 0}")
+            ST.count("chunk-loop-observed")
+        corr("chunks", sub, f"chunks {rec['itemsize']} {rec['count']}", want)
     # what the independent reader reconstructs is the original (tests the WRITER alone)
     for i, (o, p) in enumerate(zip(originals, walk(parsed_obj))):
         if o.dtype != p.dtype or tuple(o.shape) != tuple(p.shape) or elem_bytes(o) != elem_bytes(p):
@@ -687,8 +739,6 @@ def make_memmap_view(vspec, scratch):
 
 
 def reduce_request(a, m):
-    from numpy.lib.array_utils import byte_bounds
-
     ap = a.__array_interface__["data"][0]
     mp = m.__array_interface__["data"][0]
 
@@ -750,7 +800,6 @@ def rebuild_main(vspec_json, scratch):
 
 
 def view_plan(rnd, thorough):
-    S = [1, None]  # noqa: N806
     plans = []
     bases = [
         dict(dtype="<i8", shape=[6, 8], order="C", offset=0),
@@ -783,11 +832,7 @@ def view_plan(rnd, thorough):
         plans.append(dict(dtype=rec, shape=[n], order="C", offset=0, view=[["field", "a"]], seed=7))
         plans.append(dict(dtype=rec, shape=[n], order="C", offset=0, view=[["field", "b"]], seed=7))
     plans.append(dict(dtype=rec, shape=[6, 8], order="C", offset=0, view=[["field", "a"], ["T"]], seed=8))
-    del S
     return plans
-
-
-TASK_SRC = "def _seen(x):\n    import numpy as np, hashlib, pickle\n"  # (documentation only; the real task is below)
 
 
 def task_seen(x):
@@ -935,14 +980,15 @@ def dump_plan(rnd, scale, thorough):
 
     # every dtype x a few shapes/layouts
     for dt in SIMPLE_DTYPES + STRUCT_DTYPES:
-        shapes = rnd.sample(SHAPES, int(3 * scale))
+        shapes = [rnd.choice(SHAPES) for _ in range(int(3 * scale))]
         for sh in shapes + [[]]:
             add(dt, sh, rnd.choice(LAYOUTS))
     # every layout x every rank, on a few dtypes, uncompressed to a path with all four mmap modes
-    for layout in LAYOUTS:
-        for sh in SHAPES:
-            add(rnd.choice(["<f8", ">i4", "<c8", STRUCT_DTYPES[2], "S5"]), sh, layout, compress=0, target="path",
-                mmap=["r", "r+", "c", "w+"], nest=rnd.choice(["alone", "dict", "obj"]))
+    for _ in range(max(1, int(scale / 2))):
+        for layout in LAYOUTS:
+            for sh in SHAPES:
+                add(rnd.choice(["<f8", ">i4", "<c8", STRUCT_DTYPES[2], "S5", ">f2", "<M8[s]", STRUCT_DTYPES[7]]), sh, layout, compress=0,
+                    target="path", mmap=["r", "r+", "c", "w+"], nest=rnd.choice(["alone", "dict", "obj"]))
     # every compressor x levels x protocols on one array shape
     for cname in ["zlib", "gzip", "bz2", "lzma", "xz"]:
         for lvl in ([1, 3, 9] if not thorough else range(1, 10)):
@@ -965,6 +1011,20 @@ def dump_plan(rnd, scale, thorough):
 # ----------------------------------------------------------------------------- main
 
 
+def guarded(fn, case, *args):
+    """An exception escaping from the implementation where the harness did not expect one is an oracle failure
+    on that case (the property never allows an exception on valid input), not an infrastructure error."""
+    try:
+        return fn(*args)
+    except Exception as e:  # noqa: BLE001
+        import traceback
+
+        tb = traceback.extract_tb(e.__traceback__)
+        where = next((f"{os.path.basename(fr.filename)}:{fr.name}" for fr in reversed(tb) if "joblib" in fr.filename), "?")
+        fail("unexpected-exception:" + type(e).__name__, case, dict(error=repr(e)[:200], where=where))
+        return None
+
+
 def main():
     mode = sys.argv[1]
     if mode == "rebuild":
@@ -981,35 +1041,35 @@ def main():
         if kind == "dumpload":
             case.pop("index", None)
             case.pop("mmap_mode", None)
-            dump_load_case(case, scratch)
+            guarded(dump_load_case, case, case, scratch)
         elif kind == "worker-view":
-            worker_view_case(case["view"], scratch)
+            guarded(worker_view_case, case, case["view"], scratch)
         elif kind == "parallel-view":
-            parallel_view_cases(scratch)
+            guarded(parallel_view_cases, case, scratch)
         else:
-            parallel_cases(scratch, rnd, thorough)
+            guarded(parallel_cases, case, scratch, rnd, thorough)
     elif part.startswith("dump"):
         # dump<i>of<n>: shard of the dump/load plan
         i, n = (int(x) for x in part[4:].split("of"))
-        plan = dump_plan(random.Random(f"C19/{seed}/plan"), 2.0 if thorough else 1.0, thorough)
+        plan = dump_plan(random.Random(f"C19/{seed}/plan"), 30.0 if thorough else 2.0, thorough)
         for j, case in enumerate(plan):
             if j % n == i:
-                dump_load_case(case, os.path.join(scratch, f"s{i}"))
+                guarded(dump_load_case, case, case, os.path.join(scratch, f"s{i}"))
     elif part == "views":
         import concurrent.futures
 
         plan = view_plan(rnd, thorough)
         for v in plan:  # create the backing files first (the rebuild children only read them)
-            make_memmap_view(v, scratch)
+            guarded(make_memmap_view, dict(kind="worker-view", view=v), v, scratch)
         with concurrent.futures.ThreadPoolExecutor(max_workers=12) as ex:
             rebuilt = list(ex.map(lambda v: run_rebuild(v, scratch), plan))
         for v, r in zip(plan, rebuilt):
-            worker_view_case(v, scratch, r)
+            guarded(worker_view_case, dict(kind="worker-view", view=v), v, scratch, r)
     elif part.startswith("parallel"):
         i, n = (int(x) for x in part[8:].split("of"))
-        parallel_cases(scratch, rnd, thorough, i, n)
+        guarded(parallel_cases, dict(kind="parallel", shard=i), scratch, rnd, thorough, i, n)
         if i == 0:
-            parallel_view_cases(scratch)
+            guarded(parallel_view_cases, dict(kind="parallel-view"), scratch)
     emit(dict(k="stats", evaluations=ST.evaluations, nontrivial=sorted(ST.nontrivial), dist=ST.dist, samples=ST.samples))
     emit(dict(k="done"))
     OUT.flush()
